@@ -328,6 +328,7 @@ func runC10(c *Ctx) {
 	c.ruleUniqueNames("K3-duplicate-names-rejected")
 	// ---- K4 / K5
 	c.ruleHolders("K4-holder-completeness", "K5-stops-after-first-error")
+	c.ruleListenerAttach("K6-popped-node-attached")
 }
 
 // ruleUniqueNames (K3 / H7)
@@ -604,4 +605,97 @@ func typeNames(ts []types.Type) []string {
 		}
 	}
 	return out
+}
+
+// ruleListenerAttach: a node the listener takes off its stack is always put where it belongs:
+// from the Pop() in an Exit handler every path to the end of the handler hands the node on
+// (an Accept* call on the holder, a store of it into a field or list of the parent, into the
+// container) or records an error. A node dropped on some path is a construct of the rule
+// text that silently does not exist in the compiled rule.
+func (c *Ctx) ruleListenerAttach(rule string) {
+	n := 0
+	for _, f := range c.Methods("internal/iparser", "GengineParserListener") {
+		if !strings.HasPrefix(f.Name(), "Exit") {
+			continue
+		}
+		x := c.Index(f)
+		var pops []*ssa.Call
+		eachInstr(f, func(in ssa.Instruction) {
+			if call, ok := in.(*ssa.Call); ok {
+				if cal := call.Call.StaticCallee(); cal != nil && cal.Name() == "Pop" && recvName(cal) == "Stack" {
+					pops = append(pops, call)
+				}
+			}
+		})
+		for i, pop := range pops {
+			n++
+			fromPop := func(v ssa.Value) bool {
+				for d := 0; d < 8 && v != nil; d++ {
+					switch t := x.Origin(v).(type) {
+					case *ssa.TypeAssert:
+						v = t.X
+					case *ssa.Extract:
+						v = t.Tuple
+					case *ssa.ChangeInterface:
+						v = t.X
+					case *ssa.MakeInterface:
+						v = t.X
+					case *ssa.Call:
+						return t == pop
+					default:
+						return false
+					}
+				}
+				return false
+			}
+			handsOn := func(in ssa.Instruction) bool {
+				switch t := in.(type) {
+				case *ssa.Call:
+					if t == pop {
+						return false
+					}
+					if _, isB := t.Call.Value.(*ssa.Builtin); isB {
+						return false
+					}
+					if cal := t.Call.StaticCallee(); cal != nil && cal.Name() == "AddError" {
+						return true
+					}
+					// handed to the module's own code (an Accept* of the holder): not to a library
+					// function that merely looks at it
+					inModule := false
+					if t.Call.IsInvoke() {
+						inModule = t.Call.Method.Pkg() != nil && strings.HasPrefix(t.Call.Method.Pkg().Path(), modPath)
+					} else if cal := t.Call.StaticCallee(); cal != nil && cal.Pkg != nil {
+						inModule = strings.HasPrefix(cal.Pkg.Pkg.Path(), modPath)
+					}
+					if !inModule {
+						return false
+					}
+					for _, a := range t.Call.Args {
+						if fromPop(a) {
+							return true
+						}
+					}
+				case *ssa.Store:
+					if _, isAl := t.Addr.(*ssa.Alloc); !isAl && fromPop(t.Val) {
+						return true
+					}
+					if fa, isFA := t.Addr.(*ssa.FieldAddr); isFA && fieldOf(fa).Name() == "ParseErrors" {
+						return true
+					}
+				case *ssa.MapUpdate:
+					if fromPop(t.Value) {
+						return true
+					}
+				}
+				return false
+			}
+			_, dropped := pathExists(f, pop, isReturn, handsOn)
+			c.Check(rule, fmt.Sprintf("%s#pop%d", fnName(f), i+1), !dropped, pop.Pos(), "the node taken off the stack can reach the end of the handler without being handed to its parent (and without an error being recorded): the construct would be missing from the compiled rule")
+		}
+	}
+	if n == 0 {
+		c.Lost(rule, "Stack.Pop() calls in the listener's Exit handlers")
+	}
+	c.Min(rule, 15)
 }
